@@ -11,6 +11,7 @@ import PygProofs.Lemmas.BumpLemmas
 import PygProofs.Lemmas.MonthLemmas
 import PygProofs.Lemmas.DateLemmas
 import PygProofs.Lemmas.DateStrLemmas
+import PygProofs.Lemmas.DateTextLemmas
 
 namespace Pyg.Props.C04
 open Pyg Pyg.Bump Pyg.DateParse Pyg.Gen Pyg.Greg
@@ -282,6 +283,204 @@ theorem us_rejects_uk_text (y m d : Nat) (hm : 1 ≤ m ∧ m ≤ 12) (hd : 12 < 
 
 example : Valid 2000 1 13 ∧ isDateSep '.' = true ∧ isDateSep ' ' = true := by decide
 example : String.ofList (pad2 13 ++ '.' :: (pad2 1 ++ '.' :: (pad4 2000 ++ []))) = "13.01.2000" := by decide
+
+/-- `ymd(t)` = `t` minus its time of day (used for `ymd(spelling)` below; the property theorem is `ymd_drops_time`) -/
+theorem ymd_drops_time' (t : Int) (h0 : 0 ≤ t) (h1 : t < MAXUS) : dropTime t = t - todOf t := by
+  have hn : 1 ≤ (ordOf t).toNat ∧ (ordOf t).toNat ≤ 3652059 := by unfold ordOf MAXUS DAYUS at *; omega
+  have h := ord_fromOrd_all (ordOf t).toNat hn.1 hn.2
+  have e : dropTime t = ofOrd (ordOf t) := by
+    unfold dropTime ymdOf mkDate
+    simp only [h.2]
+    congr 1; unfold ordOf DAYUS at *; omega
+  rw [e]; have := split_t t; omega
+
+/-! ### the same clauses on EVERY text of the quantifier: one- or two-digit fields (padded or not), any two of the four
+separators, any time-of-day suffix `[ T]h:m[:s[.f]]` to the microsecond.  The spellings are described by the independent
+predicates `IsNumeral` / `TimeText` (Lemmas/DateTextLemmas.lean), not by the scanner. -/
+
+/-- dateutil's own reading of `d<sep>m<sep>y` is a calendar date (so `parser.parse` does not raise), then the UK decision -/
+theorem uk_numeric_checked (y m d : Nat) (v : Valid y m d) (hy : 32 ≤ y ∧ y < 9999) (hms us : Int) :
+    ((mkDateChecked (y : Int) (duResolve (d : Int) (m : Int)).1 (duResolve (d : Int) (m : Int)).2).bind fun _ =>
+        ukDecide ⟨true, d, y, (duResolve (d : Int) (m : Int)).1, (duResolve (d : Int) (m : Int)).2, hms, us⟩)
+      = checkRange (mkDate y m d + hms + us) := by
+  have hv := v; unfold Valid at hv
+  have hb := dim_bounds y m hv.2.2.1 hv.2.2.2.1
+  have hu := uk_parse_micro y m d v hy hms us
+  unfold numeric3u at hu
+  rw [hu]
+  have hvalid : ∃ t, mkDateChecked (y : Int) (duResolve (d : Int) (m : Int)).1 (duResolve (d : Int) (m : Int)).2 = .ok t := by
+    unfold duResolve
+    by_cases hd : (d : Int) > 12
+    · simp only [hd, if_true]; exact ⟨_, mkDateChecked_valid y m d v⟩
+    · simp only [hd, if_false]
+      have hb2 := dim_bounds y d (by omega) (by omega)
+      exact ⟨_, mkDateChecked_valid y d m (by unfold Valid; omega)⟩
+  obtain ⟨t0, ht0⟩ := hvalid
+  rw [ht0]; rfl
+
+/-- UK text, general form: `dt('<d><sep><m><sep><yyyy>[ time]')` is the instant, to the microsecond -/
+theorem uk_text_gen (y m d : Nat) (v : Valid y m d) (hy : 32 ≤ y ∧ y < 9999) (a b yy tm : List Char) (s1 s2 : Char) (hms us : Int)
+    (ha : IsNumeral 2 a) (hb : IsNumeral 2 b) (hyy : IsNumeral 4 yy) (hy4 : yy.length = 4)
+    (va : digitsVal a = d) (vb : digitsVal b = m) (vy : digitsVal yy = y)
+    (h1 : isDateSep s1 = true) (h2 : isDateSep s2 = true) (ht : TimeText tm hms us) :
+    dtCs true (a ++ s1 :: (b ++ s2 :: (yy ++ tm))) = some (checkRange (mkDate y m d + hms + us)) := by
+  unfold dtCs
+  rw [parse_numeric3_text a b yy tm s1 s2 hms us ha hb hyy hy4 h1 h2 ht, va, vb, vy]
+  simp only [Option.map_some, if_true]
+  rw [uk_numeric_checked y m d v hy hms us]
+
+/-- US text, general form -/
+theorem us_text_gen (y m d : Nat) (v : Valid y m d) (a b yy tm : List Char) (s1 s2 : Char) (hms us : Int)
+    (ha : IsNumeral 2 a) (hb : IsNumeral 2 b) (hyy : IsNumeral 4 yy) (hy4 : yy.length = 4)
+    (va : digitsVal a = m) (vb : digitsVal b = d) (vy : digitsVal yy = y)
+    (h1 : isDateSep s1 = true) (h2 : isDateSep s2 = true) (ht : TimeText tm hms us) :
+    dtCs false (a ++ s1 :: (b ++ s2 :: (yy ++ tm))) = some (checkRange (mkDate y m d + hms + us)) := by
+  have hv := v; unfold Valid at hv
+  unfold dtCs
+  rw [parse_numeric3_text a b yy tm s1 s2 hms us ha hb hyy hy4 h1 h2 ht, va, vb, vy]
+  simp only [Option.map_some, Bool.false_eq_true, if_false]
+  have hu := us_parse_micro y m d v hms us
+  unfold numeric3u at hu
+  rw [hu]
+  have hr : duResolve (m : Int) (d : Int) = ((m : Int), (d : Int)) := by
+    unfold duResolve; have : ¬ ((m : Int) > 12) := by omega
+    simp only [this, if_false]
+  rw [hr, mkDateChecked_valid y m d v]; rfl
+
+/-- a US-written text with day > 12 (any padding, separators, time of day) is rejected by the UK dialect … -/
+theorem uk_rejects_us_text_gen (y m d : Nat) (hm : 1 ≤ m ∧ m ≤ 12) (hd : 12 < d) (a b yy tm : List Char) (s1 s2 : Char) (hms us : Int)
+    (ha : IsNumeral 2 a) (hb : IsNumeral 2 b) (hyy : IsNumeral 4 yy) (hy4 : yy.length = 4)
+    (va : digitsVal a = m) (vb : digitsVal b = d) (vy : digitsVal yy = y)
+    (h1 : isDateSep s1 = true) (h2 : isDateSep s2 = true) (ht : TimeText tm hms us) :
+    dtCs true (a ++ s1 :: (b ++ s2 :: (yy ++ tm))) = some (.error .value) := by
+  unfold dtCs
+  rw [parse_numeric3_text a b yy tm s1 s2 hms us ha hb hyy hy4 h1 h2 ht, va, vb, vy]
+  simp only [Option.map_some, Option.some.injEq, if_true]
+  have hu := uk_rejects_us_micro y m d hm hd hms us
+  unfold numeric3u at hu
+  rw [hu]
+  rcases mkDateChecked_cases (y : Int) (duResolve (m : Int) (d : Int)).1 (duResolve (m : Int) (d : Int)).2 with ⟨t0, h⟩ | h <;> rw [h] <;> rfl
+
+/-- … and a UK-written one by the US dialect: never silently swapped -/
+theorem us_rejects_uk_text_gen (y m d : Nat) (hm : 1 ≤ m ∧ m ≤ 12) (hd : 12 < d) (a b yy tm : List Char) (s1 s2 : Char) (hms us : Int)
+    (ha : IsNumeral 2 a) (hb : IsNumeral 2 b) (hyy : IsNumeral 4 yy) (hy4 : yy.length = 4)
+    (va : digitsVal a = d) (vb : digitsVal b = m) (vy : digitsVal yy = y)
+    (h1 : isDateSep s1 = true) (h2 : isDateSep s2 = true) (ht : TimeText tm hms us) :
+    dtCs false (a ++ s1 :: (b ++ s2 :: (yy ++ tm))) = some (.error .value) := by
+  unfold dtCs
+  rw [parse_numeric3_text a b yy tm s1 s2 hms us ha hb hyy hy4 h1 h2 ht, va, vb, vy]
+  simp only [Option.map_some, Option.some.injEq, Bool.false_eq_true, if_false]
+  have hu := us_rejects_uk_micro y m d hm hd hms us
+  unfold numeric3u at hu
+  rw [hu]
+  rcases mkDateChecked_cases (y : Int) (duResolve (d : Int) (m : Int)).1 (duResolve (d : Int) (m : Int)).2 with ⟨t0, h⟩ | h <;> rw [h] <;> rfl
+
+-- non-vacuity: the unpadded '2.1.2000 03:04:05.000006' (UK) and the rejected '1/13/2000 10:30' (UK)
+example : IsNumeral 2 "2".toList ∧ IsNumeral 2 "1".toList ∧ IsNumeral 4 "2000".toList ∧ digitsVal "2".toList = 2
+    ∧ TimeText " 03:04:05.000006".toList 11045000000 6 := by
+  refine ⟨by decide, by decide, by decide, by decide, ?_⟩
+  exact TimeText.frac ' ' "03".toList "04".toList "05".toList "000006".toList (Or.inl rfl) (by decide) (by decide) (by decide) (by decide)
+example : dtCs true "2.1.2000 03:04:05.000006".toList = some (.ok (mkDate 2000 1 2 + 11045000006)) := eq_of_okView (by decide +kernel)
+example : dtCs true "1/13/2000 10:30".toList = some (.error .value) := eq_of_isValueError (by decide +kernel)
+
+/-! ### ISO text (the clause itself, not only what dt2str writes) -/
+
+/-- `dt('yyyy-mm-dd')`, `dt('yyyy-mm-ddThh:mm:ss[.ffffff]')`, `dt('yyyy-mm-dd hh:mm[:ss]')` … in both dialects: the instant -/
+theorem iso_text (uk : Bool) (y m d : Nat) (v : Valid y m d) (yy mm dd tm : List Char) (hms us : Int)
+    (hyy : IsNumeral 4 yy) (hy4 : yy.length = 4) (hmm : IsNumeral 2 mm) (hm2 : mm.length = 2) (hdd : IsNumeral 2 dd) (hd2 : dd.length = 2)
+    (vy : digitsVal yy = y) (vm : digitsVal mm = m) (vd : digitsVal dd = d) (ht : TimeText tm hms us) :
+    dtCs uk (yy ++ '-' :: (mm ++ '-' :: (dd ++ tm))) = some (checkRange (mkDate y m d + hms + us)) := by
+  unfold dtCs
+  rw [parse_iso_text yy mm dd tm hms us hyy hy4 hmm hm2 hdd hd2 ht, vy, vm, vd]
+  simp only [Option.map_some]
+  rw [decide_plain uk y m d v hms us]
+
+/-- the ISO date alone, as `strftime('%Y-%m-%d')` writes it -/
+theorem iso_date_text (uk : Bool) (y m d : Nat) (v : Valid y m d) :
+    dtCs uk (pad4 y ++ '-' :: (pad2 m ++ '-' :: (pad2 d ++ []))) = some (.ok (mkDate y m d)) := by
+  have hv := v; unfold Valid at hv
+  have hb := dim_bounds y m hv.2.2.1 hv.2.2.2.1
+  rw [iso_text uk y m d v (pad4 y) (pad2 m) (pad2 d) [] 0 0 (isNumeral_pad4 y) rfl (isNumeral_pad2 m) rfl (isNumeral_pad2 d) rfl
+    (val_pad4 y (by omega)) (val_pad2 m (by omega)) (val_pad2 d (by omega)) TimeText.none]
+  simp only [Int.add_zero]; rw [checkRange_mkDate y m d v]
+
+/-- `isoformat(' ')` / `isoformat()` with whole seconds, padded fields -/
+theorem iso_datetime_text (uk : Bool) (y m d h mi sec : Nat) (v : Valid y m d) (hh : h < 24) (hmi : mi < 60) (hs : sec < 60) (l : Char) (hl : IsLead l) :
+    dtCs uk (pad4 y ++ '-' :: (pad2 m ++ '-' :: (pad2 d ++ l :: (pad2 h ++ ':' :: (pad2 mi ++ ':' :: pad2 sec)))))
+      = some (.ok (mkDate y m d + ((h * 3600000000 + mi * 60000000 + sec * 1000000 : Nat) : Int))) := by
+  have hv := v; unfold Valid at hv
+  have hb := dim_bounds y m hv.2.2.1 hv.2.2.2.1
+  have ht := TimeText.hms l (pad2 h) (pad2 mi) (pad2 sec) hl (isNumeral_pad2 h) (isNumeral_pad2 mi) (isNumeral_pad2 sec)
+  rw [val_pad2 h (by omega), val_pad2 mi (by omega), val_pad2 sec (by omega)] at ht
+  rw [iso_text uk y m d v (pad4 y) (pad2 m) (pad2 d) _ _ 0 (isNumeral_pad4 y) rfl (isNumeral_pad2 m) rfl (isNumeral_pad2 d) rfl
+    (val_pad4 y (by omega)) (val_pad2 m (by omega)) (val_pad2 d (by omega)) ht]
+  have hm := mkDate_day_in_range y m d v
+  simp only [Int.add_zero]
+  congr 1
+  rw [checkRange_ok]; unfold DAYUS at hm; exact ⟨by omega, rfl⟩
+
+example : dtCs false "2000-02-29 23:59:59".toList = some (.ok (mkDate 2000 2 29 + 86399000000)) := eq_of_okView (by decide +kernel)
+
+/-! ### white space around the text is ignored (the dialect tests see the stripped text) -/
+
+/-- `dt(ws ++ text ++ ws')` = `dt(text)` for any white space around a text that starts and ends with other characters -/
+theorem dt_ignores_outer_ws (uk : Bool) (ws1 ws2 mid : List Char) (c0 c1 : Char) (h1 : ∀ c ∈ ws1, isWs c = true)
+    (h2 : ∀ c ∈ ws2, isWs c = true) (n0 : isWs c0 = false) (n1 : isWs c1 = false) :
+    dtStr uk (String.ofList (ws1 ++ (c0 :: (mid ++ [c1])) ++ ws2)) = dtCs uk (c0 :: (mid ++ [c1])) := by
+  unfold dtStr; rw [String.toList_ofList, strip_wrapped ws1 ws2 mid c0 c1 h1 h2 n0 n1]
+
+/-- in particular a US-written day > 12 text with blanks around it is still rejected by the UK dialect, and vice versa
+(F12: on the unrepaired code these were silently swapped) -/
+theorem rejects_with_outer_ws (y m d : Nat) (hm : 1 ≤ m ∧ m ≤ 12) (hd : 12 < d ∧ d < 100) (hy : y < 10000) (s1 s2 : Char)
+    (h1 : isDateSep s1 = true) (h2 : isDateSep s2 = true) (ws1 ws2 : List Char) (w1 : ∀ c ∈ ws1, isWs c = true) (w2 : ∀ c ∈ ws2, isWs c = true) :
+    dtStr true (String.ofList (ws1 ++ (pad2 m ++ s1 :: (pad2 d ++ s2 :: (pad4 y ++ []))) ++ ws2)) = some (.error .value)
+    ∧ dtStr false (String.ofList (ws1 ++ (pad2 d ++ s1 :: (pad2 m ++ s2 :: (pad4 y ++ []))) ++ ws2)) = some (.error .value) := by
+  have e : ∀ a b : Nat, pad2 a ++ s1 :: (pad2 b ++ s2 :: (pad4 y ++ []))
+      = digit (a / 10) :: ([digit a, s1, digit (b / 10), digit b, s2, digit (y / 1000), digit (y / 100), digit (y / 10)] ++ [digit y]) := by
+    intros; rfl
+  constructor
+  · rw [e, dt_ignores_outer_ws true ws1 ws2 _ _ _ w1 w2 (digit_not_ws _) (digit_not_ws _), ← e]
+    exact uk_rejects_us_text y m d hm hd hy s1 s2 h1 h2
+  · rw [e, dt_ignores_outer_ws false ws1 ws2 _ _ _ w1 w2 (digit_not_ws _) (digit_not_ws _), ← e]
+    exact us_rejects_uk_text y m d hm hd hy s1 s2 h1 h2
+
+example : dtStr false " 13/01/2000" = some (.error .value) ∧ dtStr true "\t02/01/2000 " = some (.ok (mkDate 2000 1 2)) :=
+  ⟨eq_of_isValueError (by decide +kernel), eq_of_okView (by decide +kernel)⟩
+
+/-! ### ymd(spelling): the date of the instant -/
+
+/-- whenever `dt(text)` is an instant of the day `(y, m, d)`, `ymd(text)` is midnight of that day -/
+theorem ymd_of_text (uk : Bool) (cs : List Char) (y m d : Nat) (v : Valid y m d) (tod : Int) (h0 : 0 ≤ tod ∧ tod < DAYUS)
+    (h : dtCs uk cs = some (.ok (mkDate y m d + tod))) : ymdCs uk cs = some (.ok (mkDate y m d)) := by
+  unfold ymdCs; rw [h]
+  have hm := mkDate_day_in_range y m d v
+  have hd := (ymd_drops_time' (mkDate y m d + tod) (by omega) (by omega))
+  simp only [Option.map_some, Except.map]
+  rw [hd]
+  congr 2
+  unfold todOf mkDate ofOrd at *; unfold DAYUS at *; omega
+
+/-- `ymd` of the UK / US / ISO spellings of an instant is its date -/
+theorem ymd_of_uk_text (y m d : Nat) (v : Valid y m d) (hy : 32 ≤ y ∧ y < 9999) (a b yy tm : List Char) (s1 s2 : Char) (hms us : Int)
+    (ha : IsNumeral 2 a) (hb : IsNumeral 2 b) (hyy : IsNumeral 4 yy) (hy4 : yy.length = 4)
+    (va : digitsVal a = d) (vb : digitsVal b = m) (vy : digitsVal yy = y)
+    (h1 : isDateSep s1 = true) (h2 : isDateSep s2 = true) (ht : TimeText tm hms us) (h0 : 0 ≤ hms + us ∧ hms + us < DAYUS) :
+    ymdCs true (a ++ s1 :: (b ++ s2 :: (yy ++ tm))) = some (.ok (mkDate y m d)) := by
+  have hm := mkDate_day_in_range y m d v
+  apply ymd_of_text true _ y m d v (hms + us) h0
+  rw [uk_text_gen y m d v hy a b yy tm s1 s2 hms us ha hb hyy hy4 va vb vy h1 h2 ht]
+  congr 1; rw [checkRange_ok]; exact ⟨by omega, by omega⟩
+
+theorem ymd_of_iso_text (uk : Bool) (y m d : Nat) (v : Valid y m d) (yy mm dd tm : List Char) (hms us : Int)
+    (hyy : IsNumeral 4 yy) (hy4 : yy.length = 4) (hmm : IsNumeral 2 mm) (hm2 : mm.length = 2) (hdd : IsNumeral 2 dd) (hd2 : dd.length = 2)
+    (vy : digitsVal yy = y) (vm : digitsVal mm = m) (vd : digitsVal dd = d) (ht : TimeText tm hms us) (h0 : 0 ≤ hms + us ∧ hms + us < DAYUS) :
+    ymdCs uk (yy ++ '-' :: (mm ++ '-' :: (dd ++ tm))) = some (.ok (mkDate y m d)) := by
+  have hm := mkDate_day_in_range y m d v
+  apply ymd_of_text uk _ y m d v (hms + us) h0
+  rw [iso_text uk y m d v yy mm dd tm hms us hyy hy4 hmm hm2 hdd hd2 vy vm vd ht]
+  congr 1; rw [checkRange_ok]; exact ⟨by omega, by omega⟩
+
+example : ymdCs true "13/01/2000 10:30".toList = some (.ok (mkDate 2000 1 13)) := eq_of_okView (by decide +kernel)
 
 /-- the matcher of the model is the `ambiguity` regex of the source (a changed regex breaks this theorem) -/
 theorem ambiguity_regex_is_modelled : Gen.re_ambiguity = "^[0-9]{1,2}[-/ .][0-9]{1,2}[-/ .][0-9]{2,4}" := rfl
